@@ -171,6 +171,9 @@ def run(ctx: Ctx):
         # Props/C06 builds on C07's verdict theorems, whose Gen tables must be current as well
         ctx.extract("Acl", x_acl.emit)
         ctx.extract("AclMatch", x_acl.emit_match)
+        # the translation of AccessControlList.is_permitted (C07's extractor, read-only): C06_gen_is_permitted_pure re-states that the
+        # verdict reads the object and the frame only; C06_verdict_history_free is about that function
+        ctx.extract("AclState", x_acl.emit_state)
         ctx.prove(MODULES, exes=[EXE], clean=False, leanchecker=ctx.thorough)
     ctx.assumptions = list(TRUSTED_BASE) + [
         "C06: software above the filtering layer is an arbitrary parameter of the model. In C06_certifiedN_unchanged the attacker "
